@@ -67,3 +67,7 @@ func LookAlikes(name string) []string {
 	add(name + name)
 	return out
 }
+
+// ChecksumTwins returns pairs of different origin-like names of equal length that collide under a weak 32-bit checksum
+// (see WeakHashCollisions): register one, ask for the other.
+func ChecksumTwins() []Collision { return WeakHashCollisions("origin-%s.example") }
